@@ -102,6 +102,17 @@ def competitor_scenario(r, coin="bitcoin", callback="csvdump", T=None, kinds=Non
                 comp_heights.append(h)
                 prev = b.hash()
             notes.append((kind, fork, length))
+        elif kind == "tie" and T >= 1:
+            # a fully validated branch (VALID_SCRIPTS, data + undo) whose top sits at exactly the height of the active tip: which
+            # of the two the parser follows is decided by the hash (max_by_key((height, hash))); no oracle, model vs code only
+            fork = r.randrange(0, T)
+            prev = active[fork].hash()
+            for h in range(fork + 1, T + 1):
+                b = grind(mkblock(prev, h), r.random() < 0.5, active[h].hash(), r)
+                off = store(b)
+                s.kvs.append(K.record(b.hash(), h, K.ACTIVE, len(b.txs), comp_file_no, off, b.header(), undo=9))
+                prev = b.hash()
+            notes.append((kind, fork, T))
         elif kind == "header-branch" and T >= 2:
             # a chain of header-only records (no data) that forks BELOW the active tip and reaches ABOVE it (headers-first sync of a
             # competing branch); optionally its lower part is a once-active, validated branch with data
